@@ -243,3 +243,26 @@ def c15_6(ctx, r):
     for f in crt:
         ok = any(isinstance(n, ast.Call) and ctx.src(n.func) == "PipelineConfig" and {k.arg: ctx.src(k.value) for k in n.keywords}.get("stage_num") == "1" for n in iter_own(f.node))
         r.check(ok, f"{f.short}: a new pipeline starts at stage_num 1", key_of(f, "initial stage"), f.loc(), "a new pipeline config does not start at stage 1")
+
+
+@rule(P, "C15.7", "T8", "the return code handed to the next stage is ERROR when the stage has missing jobs", min_obligations=2)
+def c15_7(ctx, r):
+    hc = ctx.fn("JobSubmitter._handle_completion", "C15.7")
+    cfg = ctx.cfg(hc)
+    errs = [n for n in cfg.nodes if n.kind == "stmt" and isinstance(n.ast, ast.Assign) and ctx.src(n.ast.targets[0]) == "result" and ctx.src(n.ast.value) == "Status.ERROR"]
+    miss = [n for n in cfg.nodes if n.kind == "stmt" and isinstance(n.ast, ast.Assign) and ctx.src(n.ast.targets[0]) == "missing_jobs" and not (isinstance(n.ast.value, ast.List) and not n.ast.value.elts)]
+    if not miss:
+        raise AnalysisError("C15.7", "missing-jobs computation not found in _handle_completion")
+    from ..lib import always_followed_by
+
+    for m in miss:
+        ok = bool(errs) and (always_followed_by(ctx, hc, m, errs + [cfg.raise_exit], NORMAL_KINDS) or any(
+            __import__("jcheck.lib", fromlist=["dominated_by"]).dominated_by(ctx, hc, m, [e]) for e in errs))
+        r.check(ok, "a stage with missing jobs completes with Status.ERROR", key_of(hc, "status on missing"), hc.loc(m.ast),
+                "on the branch that finds missing jobs the completion status stays GOOD: the pipeline records return code 0 for a stage whose jobs did not all finish",
+                "the recorded ... per-stage return codes match what happened")
+    # result starts as GOOD and is what the trigger sends / the function returns
+    init = [n for n in cfg.nodes if n.kind == "stmt" and isinstance(n.ast, ast.Assign) and ctx.src(n.ast.targets[0]) == "result"]
+    r.check({ctx.src(n.ast.value) for n in init} == {"Status.GOOD", "Status.ERROR"}, "result is GOOD unless jobs are missing", key_of(hc, "result values"), hc.loc(), f"result takes {sorted({ctx.src(n.ast.value) for n in init})}")
+    rets = [n for n in cfg.nodes if n.kind == "stmt" and isinstance(n.ast, ast.Return)]
+    r.check(all(ctx.src(n.ast.value) == "result" for n in rets), "_handle_completion returns that status", key_of(hc, "return"), hc.loc(), "return value changed")
